@@ -82,79 +82,47 @@ Proof.
   - exists 1%nat. split; [reflexivity|]. right. exact I.
 Qed.
 
-(* ---------------- finding #16: a second traced solve of the period with a different number of names *)
+(* ---------------- a period traced again under OTHER names (former findings #16 and "stale names", repaired by 7d04ae5):
+   the Trace starts afresh under the names traced now *)
 Definition tx_after_first := f_traced_solve_t tx_scripts tx_cfg (TName 0) false tx_desc (tx_opts 0 5) 1 tx_state tx_tr0.
 Definition tx_s1 : fstate := fst (fst tx_after_first).
 Definition tx_tr1 : ftraces := snd (fst tx_after_first).
 
-Example tx_second_traced_raises :
-  f_traced_solve_t tx_scripts tx_cfg (TList [0%nat; 1%nat]) false tx_desc (tx_opts 0 5) 1 tx_s1 tx_tr1
-  = ((tx_s1,
-      [tx_e;
-       (* one label more than there are columns: Trace.append extends `index` before np.hstack raises *)
-       mkTrace [0%nat] [LStart; LBefore; LIter 0; LIter 1; LIter 2; LIter 3; LEnd; LStart]
-               [[0%float]; [0%float]; [0%float]; [1%float]; [1.5%float]; [1.5%float]; [1.5%float]];
-       tx_e]), Raise ValueError).
-Proof. vm_compute. reflexivity. Qed.
+(* more names than before: solved exactly like the untraced call; the Trace of period 1 is a fresh 2-name trace of THIS
+   solve (the script is replayed: three passes) and nothing of the one-name record is left *)
+Example tx_second_traced_other_width :
+  let R := f_traced_solve_t tx_scripts tx_cfg (TList [0%nat; 1%nat]) false tx_desc (tx_opts 0 5) 1 tx_s1 tx_tr1 in
+  (fst (fst R), snd R) = f_solve_t tx_scripts tx_desc (tx_opts 0 5) 1 tx_s1
+  /\ snd R = Ret true
+  /\ tr_names (nth 1 (snd (fst R)) tx_e) = [0%nat; 1%nat]
+  /\ tr_index (nth 1 (snd (fst R)) tx_e) = [LStart; LBefore; LIter 0; LIter 1; LIter 2; LIter 3; LEnd]
+  /\ map (@length float) (tr_values (nth 1 (snd (fst R)) tx_e)) = [2; 2; 2; 2; 2; 2; 2]%nat.
+Proof. cbv zeta. repeat split; vm_compute; reflexivity. Qed.
 
 Example tx_second_untraced_returns :
   snd (f_solve_t tx_scripts tx_desc (tx_opts 0 5) 1 tx_s1) = Ret true.
 Proof. vm_compute. reflexivity. Qed.
 
-(* Non-interference is FALSE without the width guard: valid names, t in the span, default reset=False, and yet the
-   traced call raises ValueError (state untouched) where the same call without `trace=` solves the period. *)
-Lemma trace_width_mismatch_refuted :
-  exists (sc : scripts) (cfg : tcfg) (d : mdesc) (o : fopts) (t : Z) (s : fstate) (tr : ftraces) (a : targ),
-    truthy a = true /\
-    names_valid float (vals_of s) t (names_of cfg (length (vals_of s)) a) /\
-    py_pos (length tr) t <> None /\
-    snd (f_solve_t sc d o t s) = Ret true /\
-    snd (f_traced_solve_t sc cfg a false d o t s tr) = Raise ValueError /\
-    fst (fst (f_traced_solve_t sc cfg a false d o t s tr)) = s.
-Proof.
-  exists tx_scripts, tx_cfg, tx_desc, (tx_opts 0 5), 1, tx_s1, tx_tr1, (TList [0%nat; 1%nat]).
-  split; [reflexivity|]. split.
-  - repeat constructor; eexists; (split; [vm_compute; reflexivity|]); eexists; vm_compute; reflexivity.
-  - split; [vm_compute; discriminate|]. split; [exact tx_second_untraced_returns|].
-    rewrite tx_second_traced_raises. split; reflexivity.
-Qed.
-
-(* with reset=True the same second call is fine (the Trace is re-initialised) *)
-Example tx_second_traced_reset_ok :
-  snd (f_traced_solve_t tx_scripts tx_cfg (TList [0%nat; 1%nat]) true tx_desc (tx_opts 0 5) 1 tx_s1 tx_tr1) = Ret true.
-Proof. vm_compute. reflexivity. Qed.
-
-(* a second traced solve with ANOTHER name of the same width is accepted, the snapshots are appended — and the Trace
-   keeps the names of the first call (Trace.names is only set when the Trace is (re)created): the later rows hold V1's
-   values under the column name V0.  Mirrored, not judged: the property speaks of labels and values only. *)
-Example tx_same_width_other_name_keeps_old_names :
+(* another name of the same number: a fresh one-name Trace for V1 (7 throughout: the post-hook of the first solve wrote
+   it), nothing of V0's record mixed in *)
+Example tx_second_traced_other_name :
   nth 1 (snd (fst (f_traced_solve_t tx_scripts tx_cfg (TName 1) false tx_desc (tx_opts 0 5) 1 tx_s1 tx_tr1))) tx_e
-  = mkTrace [0%nat]
-      [LStart; LBefore; LIter 0; LIter 1; LIter 2; LIter 3; LEnd; LStart; LBefore; LIter 0; LIter 1; LIter 2; LIter 3; LEnd]
-      [[0%float]; [0%float]; [0%float]; [1%float]; [1.5%float]; [1.5%float]; [1.5%float];
-       [7%float]; [7%float]; [7%float]; [7%float]; [7%float]; [7%float]; [7%float]].
+  = mkTrace [1%nat] [LStart; LBefore; LIter 0; LIter 1; LIter 2; LIter 3; LEnd]
+            [[7%float]; [7%float]; [7%float]; [7%float]; [7%float]; [7%float]; [7%float]].
 Proof. vm_compute. reflexivity. Qed.
 
-(* NEW finding, same root as #16: the second call is accepted (`ready` holds), returns True, and the period's Trace
-   still says names = [V0] although every snapshot it appended holds V1 — the last one is V1's stored solution. *)
-Lemma trace_stale_names_refuted :
-  exists (sc : scripts) (cfg : tcfg) (d : mdesc) (o : fopts) (t : Z) (s : fstate) (tr : ftraces) (a : targ) (p : nat),
-    truthy a = true /\ ready float cfg a false t (vals_of s) tr /\ py_pos (length tr) t = Some p /\
-    let R := f_traced_solve_t sc cfg a false d o t s tr in
-    snd R = Ret true /\
-    tr_names (nth p (snd (fst R)) (empty_trace float)) <> names_of cfg (length (vals_of s)) a /\
-    last (tr_values (nth p (snd (fst R)) (empty_trace float))) []
-    = snap float fzero (vals_of (fst (fst R))) t (names_of cfg (length (vals_of s)) a).
-Proof.
-  exists tx_scripts, tx_cfg, tx_desc, (tx_opts 0 5), 1, tx_s1, tx_tr1, (TName 1), 1%nat.
-  split; [reflexivity|]. split.
-  - split.
-    + repeat constructor; eexists; (split; [vm_compute; reflexivity|]); eexists; vm_compute; reflexivity.
-    + exists 1%nat. split; [vm_compute; reflexivity|]. right. vm_compute. reflexivity.
-  - split; [vm_compute; reflexivity|]. cbv zeta. split; [vm_compute; reflexivity|]. split.
-    + vm_compute. discriminate.
-    + vm_compute. reflexivity.
-Qed.
+(* the hypotheses of trace_shape_solved_afresh are met by these two calls *)
+Example tx_afresh_hyps :
+  afresh float (nth 1 tx_tr1 tx_e) false (names_of tx_cfg 2 (TList [0%nat; 1%nat])) = true
+  /\ afresh float (nth 1 tx_tr1 tx_e) false (names_of tx_cfg 2 (TName 1)) = true
+  /\ afresh float (nth 1 tx_tr1 tx_e) false (names_of tx_cfg 2 (TName 0)) = false
+  /\ wf_trace float (nth 1 tx_tr1 tx_e) = true.
+Proof. repeat split; vm_compute; reflexivity. Qed.
+
+(* what the fix removed: with the old test (empty or reset only) the first of the two calls died in np.hstack *)
+Example tx_append_to_other_width_fails :
+  snd (append_trace float (nth 1 tx_tr1 tx_e) LStart [1.5%float; 7%float]) = Some ValueError.
+Proof. vm_compute. reflexivity. Qed.
 
 (* ---------------- trace_t's other failure modes surface as the call's exception, before the base class runs *)
 Example tx_unknown_name :
@@ -239,7 +207,7 @@ Proof. split; vm_compute; reflexivity. Qed.
 
 (* the hypotheses of the accumulation theorem are met by a second traced solve with the same name *)
 Example tx_accumulate_hyps :
-  is_empty float (nth 1 tx_tr1 tx_e) = false /\ width_ok float (nth 1 tx_tr1 tx_e) (length (names_of tx_cfg 2 (TName 0)))
+  is_empty float (nth 1 tx_tr1 tx_e) = false /\ width_ok float (nth 1 tx_tr1 tx_e) (names_of tx_cfg 2 (TName 0))
   /\ snd (f_traced_solve_t tx_scripts tx_cfg (TName 0) false tx_desc (tx_opts 0 5) 1 tx_s1 tx_tr1) = Ret true
   /\ length (tr_index (nth 1 (snd (fst (f_traced_solve_t tx_scripts tx_cfg (TName 0) false tx_desc (tx_opts 0 5) 1 tx_s1 tx_tr1))) tx_e)) = 14%nat.
 Proof.
@@ -280,25 +248,12 @@ Example tx_solve_period_label :
          1999 tx_state tx_tr0 = ((tx_state, tx_tr0), Raise KeyError).
 Proof. split; [reflexivity|]. split; [reflexivity|]. split; vm_compute; reflexivity. Qed.
 
-(* ---------------- Trace.to_dataframe: the labels x names table after a traced solve; after the failed append of finding
-   #16 the Trace carries a label without a column and to_dataframe raises ValueError from then on *)
+(* ---------------- Trace.to_dataframe: the labels x names table after a traced solve *)
 Example tx_frame_ok :
   to_dataframe float (nth 1 tx_tr1 tx_e)
   = Ret ([LStart; LBefore; LIter 0; LIter 1; LIter 2; LIter 3; LEnd], [0%nat],
          [[0%float]; [0%float]; [0%float]; [1%float]; [1.5%float]; [1.5%float]; [1.5%float]]).
 Proof. vm_compute. reflexivity. Qed.
-
-Lemma to_dataframe_after_width_mismatch_refuted :
-  exists (sc : scripts) (cfg : tcfg) (d : mdesc) (o : fopts) (t : Z) (s : fstate) (tr : ftraces) (a : targ) (p : nat),
-    truthy a = true /\ py_pos (length tr) t = Some p /\
-    (exists f, to_dataframe float (nth p tr (empty_trace float)) = Ret f) /\
-    to_dataframe float (nth p (snd (fst (f_traced_solve_t sc cfg a false d o t s tr))) (empty_trace float)) = Raise ValueError.
-Proof.
-  exists tx_scripts, tx_cfg, tx_desc, (tx_opts 0 5), 1, tx_s1, tx_tr1, (TList [0%nat; 1%nat]), 1%nat.
-  split; [reflexivity|]. split; [vm_compute; reflexivity|]. split.
-  - eexists. exact tx_frame_ok.
-  - rewrite tx_second_traced_raises. vm_compute. reflexivity.
-Qed.
 
 (* the public snapshot methods called directly: trace_t(1, 'u7', trace=None) records the default names (trace_t never
    asks whether `trace` is truthy); trace_period(1999, ...) -> KeyError *)
@@ -321,15 +276,18 @@ Example tx_linked :
 Proof. split; vm_compute; reflexivity. Qed.
 
 (* ---------------- reindex(range(5)) of the three-period model after period 1 was traced (tx_tr1): since fix 28b2a9a
-   periods 0..2 get Trace objects of their own (addresses 3, 4, 5: copies), periods 3 and 4 hold None; tracing period 3
-   raises AttributeError; tracing period 1 again through the reindexed instance leaves the original's Trace (object 1)
-   alone.  Before the fix the cells were the original's references and object 1 grew. *)
+   periods 0..2 get Trace objects of their own (addresses 3, 4, 5: copies), periods 3 and 4 hold None; since fix 3b0200f
+   tracing period 3 puts a fresh Trace (object 6) into its cell (before: AttributeError); tracing period 1 again through
+   the reindexed instance extends ITS copy (object 4) and leaves the original's Trace (object 1) alone.  Before fix
+   28b2a9a the cells were the original's references and object 1 grew. *)
 Definition tx_cells : list tcell := [Some 0%nat; Some 1%nat; Some 2%nat].
 Definition tx_positions : list (option nat) := [Some 0%nat; Some 1%nat; Some 2%nat; None; None].
 Example tx_reindex :
   fst (reindex_cells float tx_positions tx_cells tx_tr1) = [Some 3%nat; Some 4%nat; Some 5%nat; None; None]
   /\ (let '(cs, h1) := reindex_cells float tx_positions tx_cells tx_tr1 in
-      snd (trace_t_cells float [0%nat] false 3%nat LStart [2.5%float] cs h1) = Some AttributeError
+      trace_t_cells float [0%nat] false 3%nat LStart [2.5%float] cs h1
+      = (([Some 3%nat; Some 4%nat; Some 5%nat; Some 6%nat; None], h1 ++ [mkTrace [0%nat] [LStart] [[2.5%float]]]), None)
+      /\ snd (trace_t_cells_none_raises float [0%nat] false 3%nat LStart [2.5%float] cs h1) = Some AttributeError
       /\ (let '((_, h'), e) := trace_t_cells float [0%nat] false 1%nat LStart [2.5%float] cs h1 in
           e = None /\ length (tr_index (tderef float h' 4%nat)) = 8%nat /\ tderef float h' 1%nat = tderef float tx_tr1 1%nat)).
 Proof. split; [vm_compute; reflexivity|]. vm_compute. repeat split; reflexivity. Qed.
